@@ -36,7 +36,7 @@ TRUSTED = ['A1 float == real; A2 object arrays == float arrays; dependency contr
 ASSUMPTIONS = ['finite estimates (no NaN); steps positive']
 NOT_DECIDED = ['"true error never exceeds a fixed multiple of the estimate" for arbitrary analytic f (heuristic, not a theorem); '
                'the rounding floor']
-BOUNDED = ['honesty-concrete: the inequality |result - exact| <= 100*error_estimate + 1e-5*scale*10**n executed on 288 concrete configurations (exp, sin, 1/x; n = 1..4; 4 methods; default and five user-supplied step settings; 3 points each) in floating point -- a stand-in for the undecided honesty clause, never counted as proved; the configurations that fail on the unchanged tree are known finding F12',
+BOUNDED = ['honesty-concrete: the inequality |result - exact| <= 100*error_estimate + 1e-5*scale*10**n executed on 432 concrete configurations (exp, sin, 1/x; n = 1..4; 4 methods; default and five user-supplied step settings; 3 points each) in floating point -- a stand-in for the undecided honesty clause, never counted as proved; the configurations that fail on the unchanged tree are known finding F12',
            'tables of at most 6 x 3 entries in the mechanism contracts (the rules are column-wise and uniform in the size)']
 QUANTIFIED = 'all table entries, points, steps and function values: universally quantified'
 
@@ -262,7 +262,7 @@ def run_rich():
 
 
 def run_honesty():
-    """bounded stand-in for the (otherwise undecided) honesty clause: 288 concrete configurations executed with the real
+    """bounded stand-in for the (otherwise undecided) honesty clause: 432 concrete configurations executed with the real
     numpy; one obligation per (function, n, method, step options) so that the known finding F12 can name exactly the
     configurations that fail on the unchanged tree"""
     import numdifftools as nd
